@@ -38,7 +38,7 @@ class G:
 
     def gap(self, nonempty=False):
         k = self.pick(1, 1, 2) if nonempty else self.pick(0, 0, 1, 1, 2)
-        parts = [self.pick(" ", "  ", "\n", " ", "\t", "/* c */", "/*x;,=)(*/") for _ in range(k)]
+        parts = [self.pick(" ", "  ", "\n", " ", "\t", self.ws_run(), "/* c */", "/*x;,=)(*/") for _ in range(k)]
         if nonempty and not any(p.strip() == "" for p in parts):
             parts.insert(0, " ")
         s = "".join(parts)
@@ -161,12 +161,16 @@ class G:
             return self.dq(d - 1)
         return [("(", ("D", "LPAREN"))] + self.gap() + self.evalexpr(d - 1) + self.gap_ws() + [(")", ("D", "RPAREN"))]
 
+    def ws_run(self):
+        """a run of 1-3 whitespace characters: blanks, tabs, line feeds and CR LF in any order"""
+        return "".join(self.pick(" ", " ", "\t", "\n", "\n", "\r\n") for _ in range(self.pick(1, 1, 2, 3)))
+
     def gap_ws(self):
-        s_ = self.pick("", "", " ", "  ", "\n", "\t")
+        s_ = self.pick("", "", " ", self.ws_run(), self.ws_run())
         return [(s_, ("G",))] if s_ else []
 
     def gap_ws1(self):
-        return [(self.pick(" ", "  ", "\n", "\t "), ("G",))]
+        return [(self.pick(" ", self.ws_run(), self.ws_run()), ("G",))]
 
     def evalexpr(self, d):
         parts = self.operand(d)
